@@ -139,6 +139,24 @@ static std::vector<Num> &numbers() {
     addFloat<double>("double", "min-normal", DBL_MIN); addFloat<double>("double", "denorm-min", std::numeric_limits<double>::denorm_min());
     addFloat<double>("double", "minus-zero", -0.0); addFloat<double>("double", "third", 1.0 / 3.0);
     addFloat<double>("double", "large-integer", 9007199254740993.0);
+    // shortest-round-trip stress: just above a power of ten the decimal grid of N significant digits is
+    // coarsest relative to the binary grid, so these values need max_digits10 (9 / 17) digits to survive
+    // dump -> parse (added after a seeded change that printed floats with 8 digits went unnoticed)
+    for (int k = -37; k <= 38; ++k) {
+      float v = (float) std::pow(10.0, k);
+      if ((double) v < std::pow(10.0, k)) v = std::nextafterf(v, INFINITY);
+      for (int i = 0; i < 4; ++i) {
+        addFloat<float>("float", "pow10-neighbour", v);
+        v = std::nextafterf(v, INFINITY);
+      }
+    }
+    for (int k = -300; k <= 300; k += 20) {
+      double v = std::pow(10.0, k);
+      for (int i = 0; i < 2; ++i) {
+        v = std::nextafter(v, (double) INFINITY);
+        addFloat<double>("double", "pow10-neighbour", v);
+      }
+    }
   }
   return numTable;
 }
